@@ -392,6 +392,24 @@ theorem EReach.base {cfg : Cfg} {es : EState} (h : EReach cfg es) : Reach cfg es
     · rw [e]; exact ih
     · exact Reach.step l' ih e
 
+def runELabels (cfg : Cfg) (es : EState) : List ELabel → Option EState
+  | [] => some es
+  | l :: ls => match stepE cfg es l with
+    | some es' => runELabels cfg es' ls
+    | none => none
+
+theorem runELabels_reach {cfg : Cfg} {es es' : EState} (h : EReach cfg es) :
+    ∀ {ls : List ELabel}, runELabels cfg es ls = some es' → EReach cfg es' := by
+  intro ls
+  induction ls generalizing es with
+  | nil => intro e; simp [runELabels] at e; exact e ▸ h
+  | cons l ls ih =>
+    intro e
+    simp only [runELabels] at e
+    split at e
+    · next s1 h1 => exact ih (EReach.step l h h1) e
+    · simp at e
+
 def eHook : EPc → String
   | .sel1 => "Eval.run.beforeSelect1" | .beforeGo => "Eval.run.beforeGo" | .sel2 => "Eval.run.beforeSelect2"
   | .abort1 | .abort2 => "Abort" | .waitDone => "wait" | .done _ => "end"
